@@ -86,7 +86,7 @@ def run_falco(job):
     args.append(os.path.join(d, "main.vcl"))
     env = {k: val for k, val in os.environ.items() if k not in ("CI", "FASTLY_SERVICE_ID", "FASTLY_API_KEY")}
     try:
-        p = subprocess.run(args, cwd=cwd, env=env, stdout=subprocess.PIPE, stderr=subprocess.PIPE, timeout=30)
+        p = subprocess.run(args, cwd=cwd, env=env, stdout=subprocess.PIPE, stderr=subprocess.PIPE, timeout=60)
     except subprocess.TimeoutExpired:
         return {"hang": True}
     err = p.stderr.decode("utf-8", "replace")
@@ -191,6 +191,8 @@ def run(ctx):
     for i in range(n_gen):
         cases.append(legacy_case(*G.random_case(rng, i)))
     cases += P.planted_seeds()
+    cases += P.scale_cases(rng, thorough)
+    cases += P.shape_cases()
     for i in range(n_plant):
         cases.append(P.planted_case(rng, i))
     placed = [write_case(i, c) for i, c in enumerate(cases)]
@@ -297,7 +299,7 @@ def run(ctx):
             1 if pm else 0, 1 if pi else 0, " ".join("(%s %s)" % (hx(r), s) for r, s in diags)))
     mrep = V.run_batch([model], mreq, hang_s=30)
 
-    agree = 0
+    agree = abnormal_n = 0
     groups = {}
     flagstat = {}
     for (i, j, ov, jf, v), res, mr in zip(meta, results, mrep):
@@ -308,8 +310,15 @@ def run(ctx):
                   "lint_input": {"parse_error_main": pm, "parse_error_included": pi, "diags": diags},
                   "process": {k: res.get(k) for k in ("exit", "summary", "doc", "listed", "shown", "stderr_tail")}, "model": mr}
         size = len(c.main)
-        if res.get("hang") or res.get("panic"):
-            viol.append((size, "falco lint %s on %s" % ("hangs" if res.get("hang") else "panics", c.label), replay, None))
+        # any abnormal termination is a violation by itself, whatever the model says: no reply within the time limit,
+        # an exit status other than 0 / 1, a Go panic / runtime trace on stderr, -json without a parsable document
+        abnormal = ("hangs (no exit within 60 s)" if res.get("hang") else
+                    "panics" if res.get("panic") else
+                    "exits with status %s" % res.get("exit") if res.get("exit") not in (0, 1) else
+                    "prints no parsable JSON document under -json" if jf and res.get("doc") in ("none", "unparsable") else None)
+        if abnormal:
+            abnormal_n += 1
+            viol.append((size, "abnormal termination: `falco lint%s%s` %s on %s" % (" -json" if jf else "", ["", " -v", " -vv"][v], abnormal, c.label), replay, None))
             continue
         got = "exit=%d summary=%s doc=%s listed=%s shown=%s" % (res["exit"], res["summary"], res["doc"], res["listed"], res["shown"])
         if mr != got:
@@ -385,7 +394,8 @@ def run(ctx):
     ctx.coverage.update({
         "evaluations": len(jobs), "distinct_nontrivial": len(groups),
         "programs": len(cases), "program_classes": dict(sorted(classes.items())),
-        "process_runs": len(jobs), "process_model_agree": agree,
+        "process_runs": len(jobs), "process_model_agree": agree, "abnormal_terminations": abnormal_n,
+        "scale_programs": sorted(c.label.split("/", 2)[2] for c in cases if c.label.startswith("planted/scale/")),
         "flag_matrix_per_program_and_override_set": ["json=%d verbosity=%d: %d runs" % (k[0], k[1], n) for k, n in sorted(flagstat.items())],
         "planted_programs": planted_audited, "planted_linter_input_agrees": planted_agree,
         "planted_features": dict(sorted(tagstat.items())),
